@@ -107,6 +107,16 @@ theorem inv_step {s s' : State} (a : Action) (hi : Inv s) (h : step s a = some s
           simp at hu
       · simp at h
     · simp at h
+  | echoSeen c =>
+    simp only [step] at h
+    split at h
+    · rename_i hg; cases h
+      have hl := hi.loc c
+      by_cases hc : c ∈ s.ids
+      · exact inv_setConn hi hc rfl rfl id (by obtain ⟨h1, h2, h3, h4, h5, h6, h7⟩ := hl; constructor <;> simp_all)
+      · rw [hi.absent c hc] at hg
+        simp at hg
+    · simp at h
   | closedSeen c =>
     simp only [step] at h
     split at h
